@@ -189,6 +189,25 @@ def run(ctx):
     r9 = ctx.rule("C11.R9", "MEMO-STATE (effect rule, whole package): no memoised function (functools.lru_cache / cache) anywhere in src/pyhf reads -- itself or through the package functions it calls -- the current backend (get_backend(), pyhf.tensorlib, pyhf.default_backend, pyhf.optimizer) or any module state the package rebinds at run time: such a function would keep answering for the backend of its first call after a switch", "EFFECT", floor=1)
     from .. import memo
     ctx.extra["memoised_functions_in_package"] = memo.check(ctx, r9, sorted(ctx.repo.by_relpath))
+    # per-instance memoisation: a cached_property (or an lru_cache'd method) freezes what it computed on first access for the
+    # life of the object; it may not read an attribute that a subscribed refresh method re-derives on a backend switch, nor the
+    # current backend itself
+    cur_names = {a for cp_ in provs.values() for a, p_ in cp_.attr_prov.items() if p_ == CUR}
+    n_frozen = 0
+    for c_ in repo.all_classes():
+        for m_ in c_.methods.values():
+            decos = [(A.dotted(d.func) if isinstance(d, ast.Call) else A.dotted(d)) or "" for d in m_.node.decorator_list]
+            if not any(d.split(".")[-1] in ("cached_property", "lru_cache", "cache") for d in decos):
+                continue
+            n_frozen += 1
+            ctx.touch(m_)
+            hits = [n for n in ast.walk(m_.node) if isinstance(n, ast.Attribute) and isinstance(n.ctx, ast.Load) and n.attr in cur_names and not (isinstance(n.value, ast.Name) and n.value.id in ("np", "math"))]
+            hits += [n for n in ast.walk(m_.node) if isinstance(n, ast.Call) and (A.dotted(n.func) or "").split(".")[-1] == "get_backend"]
+            if hits:
+                ctx.violated(r9, m_, f"per-instance memo {c_.name}.{m_.name}", f"`{c_.name}.{m_.name}` is computed once per object ({', '.join(d for d in decos if d)}) from `{A.short(hits[0], 50)}`, which is re-derived for the new backend on every switch: after a switch the object keeps handing out the tensor of the backend that was current at the FIRST access, a freshly created object the current one", expected="a plain property (recomputed on access), or state refreshed by the subscribed method", found=A.short(hits[0], 50), node=hits[0])
+            else:
+                ctx.holds(r9, f"{c_.relpath}::{c_.name}.{m_.name} [per-instance memo]", "reads nothing that a backend switch re-derives")
+    ctx.extra["per_instance_memos"] = n_frozen
 
 
 # ----------------------------------------------------------------------
